@@ -132,6 +132,84 @@ func (l *jLog) build() *types.Log {
 // ---------------------------------------------------------------------------------------
 // Coq terms
 
+// cb renders a byte string compactly for Coq (see Corr/C17.v dx): named constants for the
+// addresses and hashes the generators use, runs of zero bytes, hex text for the rest.
+var named = []struct {
+	name string
+	b    []byte
+}{}
+
+func initNamed() string {
+	var sb strings.Builder
+	add := func(name, h string) {
+		named = append(named, struct {
+			name string
+			b    []byte
+		}{name, unhx(h)})
+		fmt.Fprintf(&sb, "Definition %s : bytes := hx \"%s\".\n", name, h)
+	}
+	add("aA", addrA)
+	add("aB", addrB)
+	for i, h := range hashes {
+		if i == 2 {
+			continue // all zero: rendered as a zero run
+		}
+		add(fmt.Sprintf("h%d", i), h)
+	}
+	return sb.String()
+}
+
+func cb(b []byte) string {
+	if len(b) == 0 {
+		return "[]"
+	}
+	var chunks []string
+	var pend []byte
+	flush := func() {
+		if len(pend) > 0 {
+			chunks = append(chunks, `CH "`+hx(pend)+`"`)
+			pend = nil
+		}
+	}
+	for i := 0; i < len(b); {
+		hit := false
+		for _, nm := range named {
+			if len(b)-i >= len(nm.b) && bytes.Equal(b[i:i+len(nm.b)], nm.b) {
+				flush()
+				chunks = append(chunks, "CB "+nm.name)
+				i += len(nm.b)
+				hit = true
+				break
+			}
+		}
+		if hit {
+			continue
+		}
+		z := 0
+		for i+z < len(b) && b[i+z] == 0 {
+			z++
+		}
+		if z >= 6 {
+			flush()
+			chunks = append(chunks, fmt.Sprintf("CZ %d", z))
+			i += z
+			continue
+		}
+		pend = append(pend, b[i])
+		i++
+	}
+	flush()
+	if len(chunks) == 1 && strings.HasPrefix(chunks[0], "CH ") {
+		return "(hx " + chunks[0][3:] + ")"
+	}
+	if len(chunks) == 1 && strings.HasPrefix(chunks[0], "CB ") {
+		return chunks[0][3:]
+	}
+	return "(dx [" + strings.Join(chunks, "; ") + "])"
+}
+
+func cbh(h string) string { return cb(unhx(h)) }
+
 func coqPred(p jPred) string {
 	ints := make([]string, len(p.Ints))
 	for i, s := range p.Ints {
@@ -143,7 +221,7 @@ func coqPred(p jPred) string {
 	}
 	bs := make([]string, len(p.Bytes))
 	for i, s := range p.Bytes {
-		bs[i] = `(hx "` + s + `")`
+		bs[i] = cbh(s)
 	}
 	return vh.CApp("mkPred", vh.CBool(p.Dyn), vh.CN(p.Off), vh.CN(p.Op), vh.CList(ints), vh.CList(bs))
 }
@@ -153,15 +231,15 @@ func coqDef(d *jDef) string {
 	for i, p := range d.Preds {
 		ps[i] = coqPred(p)
 	}
-	return vh.CApp("mkDef", `(hx "`+d.Contract+`")`, vh.CList(ps))
+	return vh.CApp("mkDef", cbh(d.Contract), vh.CList(ps))
 }
 
 func coqLog(l jLog) string {
 	ts := make([]string, len(l.Topics))
 	for i, t := range l.Topics {
-		ts[i] = `(hx "` + t + `")`
+		ts[i] = cbh(t)
 	}
-	return vh.CApp("mkLog", `(hx "`+l.Addr+`")`, vh.CList(ts), `(hx "`+l.Data+`")`)
+	return vh.CApp("mkLog", cbh(l.Addr), vh.CList(ts), cbh(l.Data))
 }
 
 // ---------------------------------------------------------------------------------------
@@ -363,7 +441,7 @@ func runDef(run *vh.Run, d *jDef, logs []jLog) {
 	mpanic, mmsg := vh.Guard(func() { enc = real.MarshalBytes() })
 	mobs := "None"
 	if !mpanic {
-		mobs = vh.CSome(vh.CBytes(enc))
+		mobs = vh.CSome(cb(enc))
 	}
 	if valid && mpanic {
 		run.Violate(vh.Violation{Key: "C17:marshal-panic-on-valid-definition", What: "MarshalBytes panicked on a definition that passes Validate: " + mmsg, Case: self})
@@ -396,7 +474,7 @@ func runDef(run *vh.Run, d *jDef, logs []jLog) {
 		for i, sub := range q.Topics {
 			hs := make([]string, len(sub))
 			for j, h := range sub {
-				hs[j] = vh.CBytes(h.Bytes())
+				hs[j] = cb(h.Bytes())
 			}
 			rows[i] = vh.CList(hs)
 		}
@@ -529,7 +607,7 @@ func runDecode(run *vh.Run, b []byte, fromMarshal bool) (*jDef, string) {
 		}
 	}
 	run.Dist["decode:"+cls]++
-	run.AddCase(id, vh.CApp("CDecode", vh.CN(id), vh.CBytes(b), obs), c, "decode:"+hx(b), cls == "ok" || cls == "UInvalid" || (cls == "UDecode" && len(b) > 24))
+	run.AddCase(id, vh.CApp("CDecode", vh.CN(id), cb(b), obs), c, "decode:"+hx(b), cls == "ok" || cls == "UInvalid" || (cls == "UDecode" && len(b) > 24))
 	return got, cls
 }
 
@@ -1209,7 +1287,7 @@ func main() {
 	debug.SetMemoryLimit(1 << 30)
 	run := vh.Start("Verif.Corr.C17", 120)
 	defer run.Finish()
-	run.SetPreamble("From Verif Require Import Lib.Rlp Model.TriggerDef.\nOpen Scope list_scope.")
+	run.SetPreamble("From Verif Require Import Lib.Rlp Model.TriggerDef.\nOpen Scope list_scope.\n" + initNamed())
 	run.Rule = "definition cases: a generated definition (all operators, topic/static/dynamic references, 0..4 and occasionally up to 12 predicates, boundary integers, one in seven deliberately invalid) with logs aimed at it (values equal/adjacent to the arguments, well-formed ABI tails, then truncations and hostile pointers/lengths up to 2^64-1); non-trivial = valid definition with at least one predicate, at least one log that matched and at least one rejected by a predicate. decoder cases: real encodings, 22 structural/canonical-form mutations written with an independent RLP writer, bit flips, truncations, trailing bytes, wrong versions, random bytes; non-trivial = got past the version byte into the RLP decoder with more than 24 bytes, or decoded. distinct by canonical JSON of the case"
 	if run.Replay != "" {
 		var c jCase
